@@ -87,6 +87,7 @@ pub fn guarded<T, F: FnOnce() -> T>(f: F) -> Option<T> {
 }
 
 pub fn quiet_panics() {
+    if std::env::var("VERIF_LOUD").is_ok() { return; }
     std::panic::set_hook(Box::new(|_| {}));
 }
 
